@@ -66,7 +66,7 @@ class Jail:
                     shutil.rmtree(p, ignore_errors=True)
             else:
                 os.unlink(p)
-        for d in ("out", "secret", "askme", "sub", "sub/out"):
+        for d in ("out", "secret", "askme", "sub", "sub/out", "sub/sub", "sub/sub/out"):
             os.makedirs(os.path.join(self.cwd, d), exist_ok=True)
         with open(os.path.join(self.cwd, "f"), "w") as f:
             f.write("data\n")
